@@ -26,6 +26,7 @@ type BackoffCase struct {
 	Fails       int  `json:"fails"` // failing attempts before the first success; -1 = always fail
 	DeadQueue   bool `json:"dead_queue"`
 	Events      int  `json:"events"`
+	Parents     int  `json:"parents"` // how many of the events are parents of a split (invisible to ForEach, but committed / routed like the others)
 }
 
 func genBackoff(t *rapid.T) BackoffCase {
@@ -37,6 +38,7 @@ func genBackoff(t *rapid.T) BackoffCase {
 		Events:      rapid.IntRange(1, 4).Draw(t, "events"),
 	}
 	c.Fails = rapid.IntRange(-1, 9).Draw(t, "fails")
+	c.Parents = rapid.IntRange(0, c.Events-1).Draw(t, "parents")
 	return c
 }
 
@@ -81,7 +83,11 @@ func runBackoff(c BackoffCase) *vkit.Outcome {
 		})
 		var events []*pipeline.Event
 		for i := 0; i < c.Events; i++ {
-			events = append(events, &pipeline.Event{SeqID: uint64(i + 1), Size: 10})
+			e := &pipeline.Event{SeqID: uint64(i + 1), Size: 10}
+			if i >= c.Events-c.Parents {
+				e.SetChildParentKind()
+			}
+			events = append(events, e)
 		}
 		batch := pipeline.NewPreparedBatch(events)
 		var data pipeline.WorkerData
@@ -118,8 +124,8 @@ func runBackoff(c BackoffCase) *vkit.Outcome {
 			if c.DeadQueue && left != 0 {
 				o.Failf(P, "given-up-batch-not-handed-over", "dead queue available, batch given up after %d calls / %v, but %d events are still in the batch: the main batcher would commit them as well", len(calls), total, left)
 			}
-			if !c.DeadQueue && left != c.Events {
-				o.Failf(P, "given-up-batch-lost-events", "no dead queue, batch given up, but only %d of %d events are left for the main batcher to commit", left, c.Events)
+			if !c.DeadQueue && left != c.Events-c.Parents {
+				o.Failf(P, "given-up-batch-lost-events", "no dead queue, batch given up, but only %d of %d deliverable events are left for the main batcher to commit", left, c.Events-c.Parents)
 			}
 			o.Class("gave-up")
 		} else {
